@@ -16,6 +16,7 @@ import (
 	"net/http"
 	"os"
 	"path/filepath"
+	"strings"
 	"time"
 
 	"google.golang.org/protobuf/types/known/durationpb"
@@ -98,7 +99,10 @@ func runC20(r *Run) {
 		x.ca.serve(x.c, x.k)
 		defer x.ca.srv.Close()
 	}
-	content := map[string][]byte{"CA-A": caA.pem, "CA-B": caB.pem, "junk": []byte("this is not PEM"), "": {}}
+	// a CA file may hold a BUNDLE (old and new CA side by side while a rotation is rolled out): every certificate in it is trusted
+	content := map[string][]byte{"CA-A": caA.pem, "CA-B": caB.pem, "CA-A+CA-B": append(append([]byte{}, caA.pem...), caB.pem...),
+"junk": []byte("this is not PEM"), "": {}}
+	inBundle := func(bundle, ca string) bool { return strings.Contains("+"+bundle+"+", "+"+ca+"+") }
 	servers := map[string]*testCA{"CA-A": caA, "CA-B": caB, "-": caC}
 	dir := filepath.Join(r.Out, "tls")
 	must(os.MkdirAll(dir, 0o755))
@@ -113,12 +117,15 @@ func runC20(r *Run) {
 		probeFirst bool        // every client is used (real handshakes) BEFORE the rotation, and again after it
 	}
 	var openings []opening
-	for _, c0 := range []string{"", "junk", "CA-A"} {
+	for _, c0 := range []string{"", "junk", "CA-A", "CA-A+CA-B"} {
 		for _, sk := range []string{"u", "b1", "b0", "s:true", "s:junk"} {
+			if c0 == "CA-A+CA-B" && sk != "u" && sk != "b1" {
+				continue
+			}
 			openings = append(openings, opening{c0, tlsSetting{Kind: "file", File: "f1", Skip: sk, Interval: interval}, nil, false})
 		}
 	}
-	for _, ca := range []string{"CA-A", "junk"} {
+	for _, ca := range []string{"CA-A", "junk", "CA-A+CA-B"} {
 		for _, sk := range []string{"b1", "s:1", "u"} {
 			openings = append(openings, opening{"CA-A", tlsSetting{Kind: "inline", CA: ca, File: "f1", Skip: sk, Interval: interval}, nil, false})
 		}
@@ -212,7 +219,7 @@ func runC20(r *Run) {
 					r.Emit(fmt.Sprintf("tls probe %d %s", i, ca), out)
 					r.Dist["probe:"+out]++
 					want := "reject"
-					if l.err == nil && !l.refNoCfg && (l.refInsecure || l.refCA == srvName) {
+					if l.err == nil && !l.refNoCfg && (l.refInsecure || inBundle(l.refCA, srvName)) {
 						want = "accept"
 					}
 					if want != out {
@@ -294,7 +301,7 @@ func runC20(r *Run) {
 						extra := "-"
 						if tc.RootCAs != nil {
 							extra = "?"
-							for _, n := range []string{"CA-A", "CA-B"} {
+							for _, n := range []string{"CA-A", "CA-B", "CA-A+CA-B"} {
 								cand, _ := x509.SystemCertPool()
 								cand.AppendCertsFromPEM(content[n])
 								if tc.RootCAs.Equal(cand) {
@@ -350,7 +357,7 @@ func runC20(r *Run) {
 				ls = append(ls, ld)
 				history = append(history, map[string]any{"load": s})
 			case k < 8:
-				f, name := pick(r.Rng, []string{"f1", "f2"}), pick(r.Rng, []string{"CA-A", "CA-B", "CA-B", "junk", ""})
+				f, name := pick(r.Rng, []string{"f1", "f2"}), pick(r.Rng, []string{"CA-A", "CA-B", "CA-B", "CA-A+CA-B", "junk", ""})
 				if forcedRotation {
 					f, name = "f1", "CA-B"
 				}
